@@ -152,3 +152,13 @@ func verifAllInSet(s string, ranges string) bool {
 	}
 	return true
 }
+
+func verifOpaqueBytes(n int) []byte {
+	if n < 0 {
+		panic(verifAssumeFailed{})
+	}
+	if n > 1<<24 {
+		n = 1 << 24 // native replay cannot allocate arbitrary sizes; lengths beyond 16 MiB are clamped (replay then reports unconfirmed)
+	}
+	return make([]byte, n)
+}
